@@ -50,10 +50,23 @@ func nameEdits(r *rand.Rand, c *Case) int {
 	n := 0
 	for k := r.Intn(3); k > 0; k-- {
 		switch r.Intn(5) {
-		case 4: // swap two declarations (a use inside an origin may now precede its declaration)
+		case 4: // move a declaration to the end (a use inside a later origin now precedes its declaration)
 			if len(c.Decls) >= 2 {
-				i, j := r.Intn(len(c.Decls)), r.Intn(len(c.Decls))
-				c.Decls[i], c.Decls[j] = c.Decls[j], c.Decls[i]
+				// prefer a declaration that some origin uses
+				idx := r.Intn(len(c.Decls))
+				for i, d := range c.Decls {
+					var uses []J
+					for _, d2 := range c.Decls {
+						collectVarUses(d2.(J)["origin"], &uses)
+					}
+					for _, u := range uses {
+						if u["name"] == d.(J)["name"] {
+							idx = i
+						}
+					}
+				}
+				d := c.Decls[idx]
+				c.Decls = append(append(append([]any{}, c.Decls[:idx]...), c.Decls[idx+1:]...), d)
 				n++
 			}
 		case 0: // delete a declaration
